@@ -18,6 +18,7 @@ func init() {
 			ruleEOF(c, r, readerAPI(c), readerCone(c), "")
 			ruleWPub(c, r)
 			rulePanicCensus(c, r, writerAPI(c), "writer")
+			ruleNewAPI(c, r, true, true)
 		},
 	})
 }
